@@ -439,14 +439,8 @@ func (c *kvCore) close() error {
 	c.enterExclusive("Close", &c.inClose)
 	c.widen()
 	atomic.StoreInt32(&c.closed, 1)
-	if c.disk == nil {
-		// an in-memory state machine frees its state when it is closed: a snapshot saved
-		// from a closed state machine is empty, and a replica rebuilt from it shows it
-		c.mu.Lock()
-		c.data = map[string]string{}
-		c.applied, c.count = 0, 0
-		c.mu.Unlock()
-	}
+	// (Close must not change the state visible to Lookup - documented for all three
+	// state machine interfaces - so the test state machines keep their data)
 	atomic.AddInt32(&c.inClose, -1)
 	return nil
 }
